@@ -6,7 +6,7 @@ import json
 from props.common import call, viol, hx
 from sim.objects import build, snapshot, order_fingerprint
 from ref import fa, iso
-from gen import fa as genfa
+from gen import fa as genfa, edits
 import gambatools.dfa_algorithms as da
 
 ID = 'C20'
@@ -72,54 +72,65 @@ def gen_cases(rng, tier, rnd):
         for s in (s1, s2):
             s['Sigma'] = [m[x] for x in s['Sigma']]
             s['delta'] = [[p, m[x], t] for p, x, t in s['delta']]
-        cases.append({'d1': s1, 'd2': s2, 'rank1': r1, 'rank2': r2, 'abs': hx([a, b]), 'kind': kind})
+        case = {'d1': s1, 'd2': s2, 'rank1': r1, 'rank2': r2, 'abs': hx([a, b]), 'kind': kind}
+        if rng.random() < 0.5:
+            # object-lifetime history: compare, edit one of the two live objects in place, compare again
+            which = rng.choice(['d1', 'd2'])
+            case['edit'] = [which, edits.propose(rng, case[which])]
+        cases.append(case)
     return cases
 
 
 def run_case(case, env):
     D1, D2 = build(case['d1']), build(case['d2'])
-    s1, s2 = snapshot(D1), snapshot(D2)
     out = {'viol': [], 'evals': 0, 'ticks': 0, 'probes': {}, 'hist': {}}
-    expected = iso.isomorphic(s1, s2)
-    c1, c2 = fa.canon_of(s1), fa.canon_of(s2)
-    same_lang = c1 == c2
-    n1, n2 = len(iso.bfs_form(s1)[1]), len(iso.bfs_form(s2)[1])
-    cls = 'isomorphic' if expected else ('equivalent_not_isomorphic' if same_lang else 'inequivalent')
-    out['probes']['pair_' + cls] = 1
-    if same_lang and n1 != n2:
-        out['probes']['same_language_different_reachable_count'] = 1
-    if len(s1['Q']) > n1 or len(s2['Q']) > n2:
-        out['probes']['has_unreachable'] = 1
-    if case['d1'] == case['d2']:
-        out['probes']['identical_objects'] = 1
     dig = []
-    for fn in FUNCS:
-        for (A, B, tag) in ((D1, D2, '12'), (D2, D1, '21')):
-            st, val, ticks = call(env, getattr(da, fn), A, B, budget=BUDGET)
-            out['evals'] += 1
-            out['ticks'] += ticks
-            out['hist']['ticks_max_' + fn] = max(out['hist'].get('ticks_max_' + fn, 0), ticks)
-            if st == 'timeout':
-                out['viol'].append(viol('no-result-within-budget', fn, {'ticks': ticks, 'expected': expected, 'pair': cls}, tags=[cls]))
-                dig.append('T')
-            elif st == 'exc':
-                out['viol'].append(viol('exception', fn, val, tags=[cls]))
-                dig.append('E')
-            elif val is not True and val is not False:
-                out['viol'].append(viol('non-boolean-answer', fn, repr(val)))
-                dig.append('?')
-            else:
-                dig.append(val)
-                if val != expected:
-                    out['viol'].append(viol('wrong-answer', fn, {'answered': val, 'expected': expected, 'pair': cls, 'order': tag},
-                                            tags=['expected-' + str(expected).lower(), cls]))
-    if snapshot(D1) != s1 or snapshot(D2) != s2:
-        out['viol'].append(viol('argument-mutated', 'dfa_isomorphic*', None))
+    phases = ['fresh'] + (['after-inplace-edit'] if case.get('edit') else [])
+    for phase in phases:
+        if phase == 'after-inplace-edit':
+            which, e = case['edit']
+            edits.apply(D1 if which == 'd1' else D2, e)
+            out['probes']['inplace_edit_between_calls'] = 1
+            if fa.validate_dfa(snapshot(D1)) or fa.validate_dfa(snapshot(D2)):
+                return {'harness_error': 'edit produced an invalid DFA: %s' % (case['edit'],)}
+        s1, s2 = snapshot(D1), snapshot(D2)
+        expected = iso.isomorphic(s1, s2)
+        c1, c2 = fa.canon_of(s1), fa.canon_of(s2)
+        same_lang = c1 == c2
+        n1, n2 = len(iso.bfs_form(s1)[1]), len(iso.bfs_form(s2)[1])
+        cls = 'isomorphic' if expected else ('equivalent_not_isomorphic' if same_lang else 'inequivalent')
+        out['probes']['pair_' + cls] = 1
+        if same_lang and n1 != n2:
+            out['probes']['same_language_different_reachable_count'] = 1
+        if len(s1['Q']) > n1 or len(s2['Q']) > n2:
+            out['probes']['has_unreachable'] = 1
+        if case['d1'] == case['d2'] and phase == 'fresh':
+            out['probes']['identical_objects'] = 1
+        ptag = [phase] if phase != 'fresh' else []
+        for fn in FUNCS:
+            for (A, B, tag) in ((D1, D2, '12'), (D2, D1, '21')):
+                st, val, ticks = call(env, getattr(da, fn), A, B, budget=BUDGET)
+                out['evals'] += 1
+                out['ticks'] += ticks
+                if st == 'timeout':
+                    out['viol'].append(viol('no-result-within-budget', fn, {'ticks': ticks, 'expected': expected, 'pair': cls}, tags=[cls] + ptag))
+                    dig.append('T')
+                elif st == 'exc':
+                    out['viol'].append(viol('exception', fn, val, tags=[cls] + ptag))
+                    dig.append('E')
+                elif val is not True and val is not False:
+                    out['viol'].append(viol('non-boolean-answer', fn, repr(val)))
+                    dig.append('?')
+                else:
+                    dig.append(val)
+                    if val != expected:
+                        out['viol'].append(viol('wrong-answer', fn, {'answered': val, 'expected': expected, 'pair': cls, 'order': tag, 'phase': phase},
+                                                tags=['expected-' + str(expected).lower(), cls] + ptag))
+        if snapshot(D1) != s1 or snapshot(D2) != s2:
+            out['viol'].append(viol('argument-mutated', 'dfa_isomorphic*', None))
     if n1 >= 2 and n2 >= 2:
         out['nontrivial_keys'] = [case['abs']]
         out['probes']['nontrivial'] = 1
-    # max is not additive: move to probes as plain counters; keep hist additive only
-    out['hist'] = {}
     fp = [order_fingerprint(D1, case.get('rank1', {})), order_fingerprint(D2, case.get('rank2', {}))]
     out['scheds'] = [hx([case['abs'], fp])]
     out['digest'] = hx([dig, fp])
@@ -127,6 +138,10 @@ def run_case(case, env):
 
 
 def shrink(case):
+    if case.get('edit'):
+        c = copy.deepcopy(case)
+        del c['edit']
+        yield c
     for which in ('d1', 'd2'):
         for t in genfa.shrink_dfa(case[which], drop_symbols=False):
             c = copy.deepcopy(case)
